@@ -9,6 +9,7 @@
 -/
 import MitmVerif.Basic.Bytes
 import MitmVerif.Gen.C34
+import MitmVerif.Model.C33
 namespace MitmVerif.C34
 
 abbrev Str := List Nat
@@ -257,6 +258,27 @@ def joinSlash : List Str → Str
 def getComponents (U : UrlCodec) (t : Target) : List Str := ((splitSlash t.path).filter (· ≠ [])).map U.unquote
 /-- `Request.path_components` setter -/
 def setComponents (U : UrlCodec) (t : Target) (cs : List Str) : Target := { t with path := 47 :: joinSlash (cs.map U.quote) }
+
+/-! ### the query and path_components views on the raw request target (urlparse's cutting: transcription in Model/C33) -/
+
+/-- `urllib.parse.urlparse(request.url)[2:]` for the request target `p` (the asterisk form has an empty path in `request.url`) -/
+def targetParts (scheme p : Str) : Target :=
+  let rest := if p = [42] then [] else p
+  let f := C33.partition 35 rest
+  let q := C33.partition 63 f.1
+  let ap := if C33.usesParams scheme then C33.splitParams q.1 else (q.1, [])
+  { path := ap.1, params := ap.2, query := q.2.2, fragment := f.2.2 }
+
+/-- `urllib.parse.urlunparse(["", "", path, params, query, fragment])` -/
+def unparseTarget (t : Target) : Str := t.path ++ C33.sfx 59 t.params ++ C33.sfx 63 t.query ++ C33.sfx 35 t.fragment
+
+/-- `Request.path_components` getter on the request target -/
+def getPathComponents (U : UrlCodec) (scheme p : Str) : List Str := getComponents U (targetParts scheme p)
+/-- `Request.path_components` setter: the new request target -/
+def setPathComponents (U : UrlCodec) (scheme p : Str) (cs : List Str) : Str := unparseTarget (setComponents U (targetParts scheme p) cs)
+/-- `Request._get_query` / `_set_query` on the request target -/
+def getQueryOf (U : UrlCodec) (scheme p : Str) : List (Str × Str) := getQuery U (targetParts scheme p)
+def setQueryOf (U : UrlCodec) (scheme p : Str) (ps : List (Str × Str)) : Str := unparseTarget (setQuery U (targetParts scheme p) ps)
 
 /-! ### urlencoded form view -/
 
